@@ -203,4 +203,54 @@ def abstractReq (verify : Str → Str → Bool) (σ : Str) (cookieOk : Bool) (q 
       | .text t => if t.isEmpty then .absent else if isValidPassword verify σ t then .valid else .invalid,
     sfs := q.sfs, xsrfOk := q.xsrfOk }
 
+
+/-! ## application state and response bodies: only a handler body can touch the one or produce the other -/
+
+/-- `RequestHandler.prepare` on the raw header: `"Sec-Fetch-Site" in headers and headers[...] not in ("same-origin", "none")` -/
+def sfsOfHeader : Option Str → Sfs
+  | none => .absent
+  | some v =>
+    if v = [115, 97, 109, 101, 45, 111, 114, 105, 103, 105, 110] then .sameOrigin        -- "same-origin"
+    else if v = [110, 111, 110, 101] then .none                                          -- "none"
+    else .other
+
+/-- what the client receives: a refusal (empty body, login form or tornado's error page — constants) or a handler's output -/
+inductive Resp (B : Type)
+  | refusal
+  | body (b : B)
+
+def Resp.isRefusal {B : Type} : Resp B → Bool
+  | .refusal => true
+  | .body _ => false
+
+/-- the live application: WebAuth world + the state the handlers work on (view, options, events) -/
+structure AppW (S : Type) where
+  w : World
+  app : S
+
+/-- one event against the application; `handler r q s` is the handler body of route `r` (arbitrary) -/
+def stepApp {S B : Type} (handler : Route → RawReq → S → S × B) (verify : Str → Str → Bool) (hashOk : Str → Bool)
+    (a : AppW S) : Ev → AppW S × Option (Outcome × Resp B)
+  | .setPw v fresh => ({ a with w := (stepW verify hashOk a.w (.setPw v fresh)).1 }, none)
+  | .req r q newId =>
+    let out := serveC verify r a.w.password (a.w.cookieOk q) q
+    let w' := (stepW verify hashOk a.w (.req r q newId)).1
+    if out.handlerRan then
+      let res := handler r q a.app
+      (⟨w', res.1⟩, some (out, .body res.2))
+    else (⟨w', a.app⟩, some (out, .refusal))
+
+def runApp {S B : Type} (handler : Route → RawReq → S → S × B) (verify : Str → Str → Bool) (hashOk : Str → Bool) :
+    AppW S → List Ev → AppW S × List (Outcome × Resp B)
+  | a, [] => (a, [])
+  | a, e :: r =>
+    let (a', o) := stepApp handler verify hashOk a e
+    let (af, os) := runApp handler verify hashOk a' r
+    (af, (match o with | some x => [x] | none => []) ++ os)
+
+/-- the event is a request that carries no credential valid at this moment (and no issued cookie) -/
+def Ev.uncredentialed (verify : Str → Str → Bool) (w : World) : Ev → Bool
+  | .setPw _ _ => true
+  | .req _ q _ => !w.cookieOk q && !carriesValidPassword verify w.password q
+
 end MitmVerif.C46
